@@ -27,7 +27,7 @@ for d in sorted((V / "seeded").iterdir()):
 out = ["# Independently seeded breaks", "",
        "Each directory holds `patch.diff` (applies to `/repo` HEAD), `demo.py` (exits 0 without the patch, non-zero with it), `notes.md` (the author's description)",
        "and `meta.json` (what was run to confirm it).  Authors were fresh sub-agents which saw only the property text and a scratch worktree.",
-       "Rounds 2 to 11 (`<id>r2-*` ... `<id>r11-*`) asked for particular kinds of change (cooperating edits, timing/order, aliasing/caching, boundary values,",
+       "Rounds 2 to 12 (`<id>r2-*` ... `<id>r12-*`) asked for particular kinds of change (cooperating edits, timing/order, aliasing/caching, boundary values,",
        "re-sent / late PDUs, refusal and fault paths, less travelled transfer shapes, several peers / handlers, interplay of two procedures, pacing of the",
        "entities, objects shared with the user, handling of time, modules outside the handlers, unusual orders of API calls, extreme configuration values, unusual content).",
        "", "Result of the quick tier of the property's own check and of the general checks C10 and C11 against the patched tree (`tools/matrix.py --own-plus C11,C10`;",
